@@ -1142,6 +1142,8 @@ Proof.
     + now rewrite app_nil_r.
   - (* NestedIn: not available in the configuration the theorem is about *)
     cbn [nested no_quirks] in H. trivial_res H.
+  - (* WithState: not available in the configuration the theorem is about *)
+    cbn [nested no_quirks] in H. trivial_res H.
   - (* Skip *)
     inv_pair H. destruct (skip_loop_spec n0 s Hinv) as (Hc & Hs & Ha & Hv).
     exists VUnit, (cur (skip_loop toks n0 s)), []. rewrite Hc, Hs, Ha, app_nil_r. repeat split; auto.
